@@ -369,10 +369,18 @@ class Interp:
         outcomes: List[Outcome] = []
         self._choices, self._arity = [], []
         n = 0
+        import copy as _copy
+        dc0 = getattr(self, '_default_cache', {})
         while True:
             self._pos = 0
             self._depth = 0
             self.trace = []
+            # mutable default arguments live as long as the function: every path starts from the state the previous
+            # explore() left (paths are alternatives, not a sequence)
+            try:
+                self._default_cache = _copy.deepcopy(dc0)
+            except Exception:
+                self._default_cache = {}
             if fresh:
                 fresh()
             try:
@@ -425,7 +433,7 @@ class Interp:
             else:
                 di = i - (len(params) - nd)
                 if di >= 0:
-                    env.vars[p] = self.ev(defaults[di], env)
+                    env.vars[p] = self._default_value(defaults[di], env)
                 else:
                     env.vars[p] = TOP
         extra = args[len(params):]
@@ -435,11 +443,23 @@ class Interp:
             if p.arg in kwargs:
                 env.vars[p.arg] = kwargs.pop(p.arg)
             elif d is not None:
-                env.vars[p.arg] = self.ev(d, env)
+                env.vars[p.arg] = self._default_value(d, env)
             else:
                 env.vars[p.arg] = TOP
         if a.kwarg:
             env.vars[a.kwarg.arg] = kwargs
+
+    def _default_value(self, node: ast.expr, env: Env):
+        """Default values are evaluated once, when the function is defined: a mutable default (`opts={}`) is one
+        object shared by all calls."""
+        cache = self.__dict__.setdefault('_default_cache', {})
+        k = id(node)
+        if k in cache:
+            return cache[k]
+        v = self.ev(node, env)
+        if isinstance(v, (dict, list, set)):
+            cache[k] = v
+        return v
 
     # ------------------------------------------------------------ statements
     def exec_block(self, stmts: List[ast.stmt], env: Env) -> None:
